@@ -6,6 +6,7 @@ from .. import paths as P
 from ..effects import Effects
 from ..kinds import Kinds, truth_tests, DICT, MAYBE
 from ..selftest.runner import M, TW, V
+from . import common as K
 
 PROPERTY = "C07"
 EXPLANATION = (
